@@ -272,9 +272,30 @@ def handle (m : String) (j : Json) : Option (R Json) :=
             | .str "Argument" => pure PubClass.argument
             | _ => (.error "c06.dispatch: unknown public class" : R PubClass))
         | _ => (.error "c06.dispatch: a list of class names expected" : R (List PubClass)))
-      return jList (fun m => match dispatch m with
+      let disp := jList (fun m => match dispatch m with
         | some .commandName => Json.str "name" | some .commandOption => Json.str "copt"
         | some .option => Json.str "opt" | some .argument => Json.str "arg" | none => Json.str "foreign") mros
+      -- optional `kinds` (one per object: the public class the case means the object to be, `"foreign"` for an
+      -- object of no public class): the hypothesis of `Props.C06.ctor_objects_same_rules` decided per object
+      -- (`onlyB`, `Props.C06.only_decides`); the answer is then `{dispatch, only}`
+      match fOpt j "kinds" with
+      | none => return disp
+      | some ks =>
+        let kinds ← match ks with
+          | .arr a => a.toList.mapM (fun c => do
+              match c with
+              | .str "name" => pure (some PubClass.commandName)
+              | .str "copt" => pure (some PubClass.commandOption)
+              | .str "opt" => pure (some PubClass.option)
+              | .str "arg" => pure (some PubClass.argument)
+              | .str "foreign" => pure none
+              | _ => (.error "c06.dispatch: unknown kind" : R (Option PubClass)))
+          | _ => (.error "c06.dispatch: kinds: a list expected" : R (List (Option PubClass)))
+        if kinds.length != mros.length then throw "c06.dispatch: one kind per object expected"
+        return Json.mkObj [("dispatch", disp),
+          ("only", jList (fun (p : List PubClass × Option PubClass) => match p.2 with
+            | some c => Json.bool (onlyB p.1 c)
+            | none => Json.bool false) (mros.zip kinds))]
   | "c06.flatten" => some do
       -- the flattening the bridge theorems of Props/C06.lean are about, on the formats of the case
       match (← fStr j "kind") with
